@@ -1124,6 +1124,19 @@ pub fn c09_base_cfg(b: u64, seed: u64) -> CCfg {
     c.deadlines = vec![Dl::Ms(50), Dl::Ms(10_000), Dl::Ms(10_000)];
     c.early_drop_handle = r.chance(1, 2);
     c.order = *r.pick(&[Order::InOrder, Order::Random]);
+    if b % 5 == 4 {
+        // quiet connection: the peer never answers, nobody abandons, deadlines are far away - after
+        // a failed request write the calls queued behind it are the only work there is
+        c.label = "C09-base-quiet";
+        c.cap = 8;
+        c.max_in_flight = 8;
+        c.buffer = *r.pick(&[2, 8]);
+        c.ncalls = 6 + r.below(3);
+        c.abandon_pct = 0;
+        c.never_pct = 100;
+        c.deadlines = vec![Dl::Ms(10_000)];
+        c.early_drop_handle = false;
+    }
     c
 }
 
